@@ -62,7 +62,7 @@ def base_surface(rng, nx, ny, symmetry, name="wing", right=False, fem="tube", **
         "CL0": 0.0, "CD0": 0.015, "k_lam": 0.05, "t_over_c_cp": np.array([0.15]), "c_max_t": 0.303,
         "with_viscous": True, "with_wave": False,
         "E": 70.0e9, "G": 30.0e9, "yield": 500.0e6 / 2.5, "mrho": 3.0e3,
-        "fem_origin": float(rng.uniform(0.2, 0.6)), "wing_weight_ratio": float(rng.uniform(1.0, 2.5)),
+        "fem_origin": float(rng.choice([rng.uniform(0.0, 1.0), rng.uniform(0.2, 0.6), 0.0, 1.0], p=[0.4, 0.4, 0.1, 0.1])), "wing_weight_ratio": float(rng.uniform(1.0, 2.5)),
         "struct_weight_relief": False, "distributed_fuel_weight": False, "exact_failure_constraint": False,
     }
     return s
